@@ -21,11 +21,18 @@ type verifS16 struct {
 	id    int
 	order uint32
 	mode  int // prepare/stat: 0 ok, 1 panic; check: 0 pass result, 1 nil, 2 block, 3 panic
-	log   *verifLog
-	blkOK bool
+	// how a check slot blocks: 0 fresh result, 1 in place with message, 2 in place with rule and snapshot, 3 in place with the type only
+	inplace int
+	log     *verifLog
+	blkOK   bool
 }
 
 var verifMsgs = []string{"blocked-by-0", "blocked-by-1", "blocked-by-2", "blocked-by-3"}
+
+type verifRule16 struct{}
+
+func (verifRule16) String() string       { return "rule16" }
+func (verifRule16) ResourceName() string { return "R16" }
 
 type verifPrep16 struct{ verifS16 }
 
@@ -46,6 +53,17 @@ func (s *verifCheck16) Check(ctx *base.EntryContext) *base.TokenResult {
 	case 1:
 		return nil
 	case 2:
+		switch s.inplace {
+		case 1: // in place, as the built-in slots do
+			ctx.RuleCheckResult.ResetToBlockedWithMessage(base.BlockTypeFlow+base.BlockType(s.id), verifMsgs[s.id])
+			return ctx.RuleCheckResult
+		case 2:
+			ctx.RuleCheckResult.ResetToBlockedWithCause(base.BlockTypeFlow+base.BlockType(s.id), verifMsgs[s.id], verifRule16{}, s.id)
+			return ctx.RuleCheckResult
+		case 3: // in place with the block type only
+			ctx.RuleCheckResult.ResetToBlocked(base.BlockTypeFlow + base.BlockType(s.id))
+			return ctx.RuleCheckResult
+		}
 		return base.NewTokenResultBlockedWithMessage(base.BlockTypeFlow+base.BlockType(s.id), verifMsgs[s.id])
 	case 3:
 		panic("check panics")
@@ -112,6 +130,9 @@ func VerifC16() {
 		} else {
 			s.mode = rt.Choice(3)
 		}
+		if s.mode == 2 {
+			s.inplace = rt.Choice(3)
+		}
 		cs, co = append(cs, s), append(co, s.order)
 		sc.AddRuleCheckSlot(s)
 	}
@@ -171,6 +192,7 @@ func VerifC16() {
 	rt.Assert(same, "slots run in ascending order (insertion order on ties), rule checks stop at the first block, every statistic slot is told the outcome once")
 	if blk != nil && blocker >= 0 {
 		rt.Assert(blk.BlockMsg() == verifMsgs[blocker] && blk.BlockType() == base.BlockTypeFlow+base.BlockType(blocker), "the first blocking slot determines the block error")
+		rt.Assert((blk.TriggeredRule() != nil) == (cs[blocker].inplace == 2), "the block error carries the rule of the blocking slot, if it gave one")
 		for _, s := range ss {
 			rt.Assert(s.blkOK, "statistic slots receive the block error")
 		}
@@ -227,7 +249,8 @@ func VerifC16() {
 	}
 	block2 := len(cs) > 0 && rt.Bool("block2")
 	if block2 {
-		cs[len(cs)-1].mode = 2 // blocked by another slot, with another message
+		cs[len(cs)-1].mode = 2 // blocked by another slot, in place, with the block type only
+		cs[len(cs)-1].inplace = 3
 	}
 	n2 := len(log.calls)
 	e2, blk2 := Entry("R16b", WithSlotChain(sc))
@@ -262,6 +285,10 @@ func VerifC16() {
 		for i := range want2 {
 			same2 = same2 && log.calls[n2+i] == want2[i]
 		}
+	}
+	if blk2 != nil {
+		rt.Assert(blk2.BlockType() == base.BlockTypeFlow+base.BlockType(len(cs)-1) && blk2.BlockMsg() == "" && blk2.TriggeredRule() == nil && blk2.TriggeredValue() == nil,
+			"second entry: the block error carries only what its own blocking slot gave (nothing of an earlier entry on the recycled context)")
 	}
 	rt.Assert(same2, "second entry (recycled context): every slot runs in order, statistic slots are told passed and completed (or blocked) exactly once")
 	if blk != nil && blocker >= 0 {
